@@ -561,6 +561,58 @@ def sym_write_file_to_output(vc):
         vc.explore(fk, thunk)
 
 
+def sym_write_file_to_output_faulty(vc):
+    """PathDumper.write_file_to_output under a transient I/O fault: shutil.copy may fail with OSError after it has created (a
+    prefix of) the destination.  If the call RETURNS normally, the destination is complete: it existed before the call, or
+    the last copy to it ran to completion.  (A failed copy may be retried or reported -- but a half-written file must never
+    be taken for a finished one.)"""
+    import z3
+    from pyvc.api import check, cover, sym_str, term, StrS, UFunc
+    from pyvc.symex import PyExc, Ev
+    from pyvc import lib
+    import pyvc.loader as L
+    fk = vc.under_contract(D + 'to_path.py', ['PathDumper', 'write_file_to_output'])
+    for hashed in (False, True):
+        def thunk(it, hashed=hashed):
+            d = mk_dumper(it, options={'add_filehash_to_path': True} if hashed else {})
+            m = it.module('dataflows.processors.dumpers.to_path')
+            sh = m.attrs['shutil']
+            budget = [1]           # at most one fault
+            log = []
+
+            def copy(it_, a, k):
+                src, dst = a[0], a[1]
+                it_.emit(Ev('Call', target='shutil.copy', method='__call__', args=(lib.snap(it_, src), lib.snap(it_, dst)), kwargs={},
+                            result=None, objs=(src, dst)))
+                L.fs_note_created(it_, dst)            # the destination exists from now on, complete or not
+                if budget[0] > 0 and it_.decide(2, lambda i: True) == 1:
+                    budget[0] -= 1
+                    log.append(('failed', dst))
+                    e = lib.ExcV('OSError', ('I/O error while copying',))
+                    raise PyExc(e)
+                log.append(('complete', dst))
+                return dst
+            sh.attrs['copy'] = UFunc('shutil.copy', copy, True)
+            fn, path = sym_str(it, 'filename'), sym_str(it, 'relpath')
+            j2 = z3.Function('os.path.join2', StrS, StrS, StrS)
+            dest = j2(d.out.t, path.t)
+            existed_before = L.FS_EXISTS(dest)
+            tag = '[hashed=%s]' % hashed
+            try:
+                it.call(it.lib.getattr_(it, d, 'write_file_to_output'), [fn, path])
+            except PyExc as pe:
+                check(it, 'a-failed-copy-surfaces-as-the-os-error' + tag, pe.exc.cls == 'OSError' and any(k == 'failed' for k, _ in log))
+                cover(it, 'fault-reachable' + tag)
+                return
+            completed = [dst for k, dst in log if k == 'complete']
+            last_ok = bool(log) and log[-1][0] == 'complete' and True
+            check(it, 'normal-return-means-the-destination-is-complete' + tag,
+                  z3.Or(existed_before if hashed else z3.BoolVal(False),
+                        z3.And(z3.BoolVal(last_ok), term(log[-1][1], StrS) == dest) if log else z3.BoolVal(False)))
+            cover(it, 'return-reachable' + tag)
+        vc.explore(fk, thunk, min_paths=2)
+
+
 # ------------------------------------------------------------------------------------------------ hash_handler
 
 def sym_hash_handler(vc):
